@@ -485,6 +485,26 @@ let do_bld (toks : string list) : string =
     List.iter (fun c ->
       match c with
       | [] -> ()
+      | "new_from_module" :: bnd :: _ ->
+        (match M.bfrom M.empty_module (Some (M.new_header (n_of_hex bnd))) with
+         | Some s0 when !out = [] -> st := s0; out := "from,-,-" :: !out
+         | _ -> raise Exit)
+      | "find_return_block_indices" :: _ ->
+        (match M.find_return_blocks !st with
+         | None -> out := "PANIC" :: !out; raise Not_found
+         | Some l ->
+           let rec nat_int = function M.O -> 0 | M.S x -> 1 + nat_int x in
+           out := Printf.sprintf "list:%s,%s,%s" (String.concat "." (List.map (fun k -> string_of_int (nat_int k)) l))
+                    (sel_text !st.M.bs_fn) (sel_text !st.M.bs_blk) :: !out)
+      | "select_function_by_name" :: nm :: _ ->
+        (match M.select_function_by_name !st (str_of_tok nm) with
+         | None -> out := "PANIC" :: !out; raise Not_found
+         | Some (s1, o) ->
+           let before = mtext !st in
+           st := s1;
+           let res = (match o with M.BFail e -> "err:" ^ berr_name e | _ -> "ok") in
+           let line = Printf.sprintf "%s,%s,%s" res (sel_text s1.M.bs_fn) (sel_text s1.M.bs_blk) in
+           out := (if starts_with "err:" res then line ^ Printf.sprintf ",same=%d" (if mtext s1 = before then 1 else 0) else line) :: !out)
       | name :: a ->
         let arg k = List.nth a k in
         let (call, kind) =
